@@ -10,6 +10,7 @@ package h5db_test
 import (
 	"bytes"
 	"fmt"
+	"os"
 	"sort"
 	"strings"
 	"testing"
@@ -35,8 +36,8 @@ var alphabetASCII = []byte{0x00, 'a', 'b', '*', '?', '[', ']', 0x7f}
 var alphabetBinary = []byte{0x00, 'a', 'b', '*', '?', '[', ']', '\\', 0x80, 0xff}
 
 var (
-	mr     *miniredis.Miniredis
-	mrErr  error
+	mr    *miniredis.Miniredis
+	mrErr error
 )
 
 type provider struct {
@@ -100,7 +101,25 @@ func runOne(r *sim.Run) {
 	if mrErr != nil {
 		panic("miniredis: " + mrErr.Error())
 	}
-	pdb, err := pebbledb.NewTestDatabase()
+	// one run in five keeps the Pebble store in a real directory, so that the store can be RESTARTED (closed and opened
+	// again on what it left behind) in the middle of a history: the write-ahead log is replayed, memtables are flushed,
+	// and everything committed before must read back as before (a restart is the one point where a sequential
+	// history meets the store's durable representation)
+	onDisk := t.Prob(1, 5, "pebble_on_disk")
+	var pdb database.Database
+	var err error
+	pebbleDir := ""
+	if onDisk {
+		pebbleDir, err = os.MkdirTemp("", "verif-h5db-pebble-")
+		if err != nil {
+			panic("pebble temp dir: " + err.Error())
+		}
+		defer os.RemoveAll(pebbleDir)
+		pdb, err = pebbledb.NewDatabase(pebbleDir, false)
+		r.Count("arm:pebble_on_disk_with_restarts", 1)
+	} else {
+		pdb, err = pebbledb.NewTestDatabase()
+	}
 	if err != nil {
 		panic("pebble: " + err.Error())
 	}
@@ -236,9 +255,43 @@ func runOne(r *sim.Run) {
 		hist = append(hist, fmt.Sprintf("populate(%d entries under %s, batch=%v)", n, q(pre), viaBatch))
 		r.Count("probe:populated_store_hundreds_of_entries", 1)
 	}
+	restart := func(why string) {
+		// open batches die with the handle they were made on: they are abandoned first (and must have had no effect)
+		for _, b := range batches {
+			for i := range provs {
+				b.real[i].Close()
+			}
+		}
+		batches = nil
+		for i := range provs {
+			switch provs[i].name {
+			case "pebble":
+				if err := provs[i].db.Close(); err != nil {
+					fail(provs[i], "restart", "error", "Close before restart returned %v", err)
+				}
+				ndb, err := pebbledb.NewDatabase(pebbleDir, false)
+				if err != nil {
+					fail(provs[i], "restart", "error", "reopening the store returned %v", err)
+					panic(abortRun{})
+				}
+				provs[i].db = ndb
+			case "redis":
+				provs[i].db.Close()
+				provs[i].db = redisdb.NewDatabase(mr.Addr(), "", 0) // a new client on the same server
+			}
+		}
+		hist = append(hist, why)
+		r.Count("fault:store_restarted", 1)
+	}
 	for step := 0; step < nOps && !r.Violated(); step++ {
-		op := t.Pick([]int{6, 3, 5, 2, 3, 5, 3, 3, 1, 6}, "op")
+		w := []int{6, 3, 5, 2, 3, 5, 3, 3, 1, 6, 0}
+		if onDisk {
+			w[10] = 3
+		}
+		op := t.Pick(w, "op")
 		switch op {
+		case 10:
+			restart("restart")
 		case 0: // Put
 			k, v := pickKey(), newVal()
 			noteKey(k)
@@ -513,8 +566,12 @@ func runOne(r *sim.Run) {
 			b.real[i].Close()
 		}
 	}
+	batches = nil
 	if r.Violated() {
 		return
+	}
+	if onDisk && t.Bool("restart_before_final_sweep") {
+		restart("restart before the final sweep")
 	}
 	// final sweep: every provider holds exactly the model
 	for _, p := range provs {
